@@ -5,11 +5,15 @@
 -/
 import Driver.Codec
 import Driver.OpsVector
+import Driver.OpsFrame
 
 open Lean DI DI.Codec
 
 def dispatch (op : String) (a : Json) : Except String Json :=
   match DI.Ops.vectorOp op a with
+  | some r => r
+  | none =>
+  match DI.Ops.frameOp op a with
   | some r => r
   | none => .error s!"unknown op {op}"
 
